@@ -251,4 +251,64 @@ example : countHits true ((1 : ℚ) / 2) (stepsOf [0, 1 / 4, 1 / 2, 3 / 4, 1]) =
     ∧ countHits false ((1 : ℚ) / 2) (stepsOf [0, 1 / 4, 1 / 2, 3 / 4, 1]) = 1 := by
   constructor <;> (simp only [countHits, stepsOf, hits]; norm_num)
 
+/-! ### The corrected rule is float-proof
+
+`hitsP a b zg = (a < zg ≤ b)` uses comparisons only, so the statement below holds in EVERY linear order - in particular for
+the IEEE doubles of the running code (no NaN among planes and grid positions) - whereas `c14_grid_once` needs the exact
+`b - (b - a) = a` of a field, which floating point does not provide (0.03 - 0.01 < 0.02 in doubles: the grid at 0.02 was counted
+by the step ending at 0.02 and again by the step ending at 0.03; defect 55). -/
+
+theorem countHitsP_zero_of_le {L : Type} [LinearOrder L] (zg : L) :
+    ∀ (c : L) (v : List L), (c :: v).Pairwise (· < ·) → zg ≤ c → countHitsP zg (c :: v) = 0 := by
+  intro c v
+  induction v generalizing c with
+  | nil => intro _ _; rfl
+  | cons d w ih =>
+    intro hp hzc
+    have hcd : c < d := (List.pairwise_cons.mp hp).1 d List.mem_cons_self
+    have h0 : hitsP c d zg = false := by
+      unfold hitsP; simp [not_lt.mpr hzc]
+    simp only [countHitsP, h0]
+    simpa using ih d (List.pairwise_cons.mp hp).2 (le_trans hzc hcd.le)
+
+/-- **Exactly once, in any linear order.**  For every strictly increasing plane list and every grid position in
+`(first plane, last plane]`, exactly one step counts it. -/
+theorem c14_planes_once {L : Type} [LinearOrder L] (a : L) (t : List L) (hinc : (a :: t).Pairwise (· < ·)) (zg : L)
+    (hlo : a < zg) (hhi : zg ≤ (a :: t).getLast (by simp)) :
+    countHitsP zg (a :: t) = 1 := by
+  induction t generalizing a with
+  | nil =>
+    simp only [List.getLast_singleton] at hhi
+    exact absurd (lt_of_lt_of_le hlo hhi) (lt_irrefl _)
+  | cons b u ih =>
+    have hinc' : (b :: u).Pairwise (· < ·) := (List.pairwise_cons.mp hinc).2
+    rw [List.getLast_cons (by simp)] at hhi
+    by_cases hzb : zg ≤ b
+    · have h1 : hitsP a b zg = true := by unfold hitsP; simp [hlo, hzb]
+      simp only [countHitsP, h1, countHitsP_zero_of_le zg b u hinc' hzb]
+      rfl
+    · have h0 : hitsP a b zg = false := by unfold hitsP; simp [hzb]
+      simp only [countHitsP, h0]
+      simpa using ih b hinc' (not_le.mp hzb) hhi
+
+/-- a grid at or below the first plane, or above the last one, is counted by no step -/
+theorem c14_planes_outside {L : Type} [LinearOrder L] (a : L) (t : List L) (hinc : (a :: t).Pairwise (· < ·)) (zg : L)
+    (h : zg ≤ a) : countHitsP zg (a :: t) = 0 := countHitsP_zero_of_le zg a t hinc h
+
+/-- total over all grids: `n` grids inside `(first, last]` give exactly `n` losses -/
+theorem c14_planes_total {L : Type} [LinearOrder L] (a : L) (t : List L) (hinc : (a :: t).Pairwise (· < ·)) (grids : List L)
+    (hg : ∀ g ∈ grids, a < g ∧ g ≤ (a :: t).getLast (by simp)) :
+    gridLosses grids (a :: t) = grids.length := by
+  unfold gridLosses
+  induction grids with
+  | nil => rfl
+  | cons g gs ih =>
+    simp only [List.map_cons, List.sum_cons, List.length_cons]
+    rw [c14_planes_once a t hinc g (hg g List.mem_cons_self).1 (hg g List.mem_cons_self).2,
+      ih (fun x hx => hg x (List.mem_cons_of_mem _ hx))]
+    omega
+
+/-- non-vacuity: three planes, a grid on the middle plane is counted once -/
+example : countHitsP (2 : Nat) [0, 2, 5] = 1 := by decide
+
 end Dassh.Props.C14
